@@ -165,7 +165,10 @@ func c14(r *ev.Run) {
 			for ph := 0; ph <= 3; ph++ {
 				for _, d := range c14Digits {
 					for h := 0; h <= 4; h++ {
-						for _, ts := range []int{-1, 0, 1, 60} {
+						for ti, ts := range []int{-1, 0, 1, 60, 1 << 32, 9223372036, 9223372037, 1 << 40, 1<<63 - 1, -9223372037, -(1 << 40), -1 << 63} {
+							if ti >= 4 && (qf+ph+h+ti)%5 != 0 {
+								continue // the extreme steps (products with 10^9 wrap around 2^63) meet a fifth of the grid
+							}
 							sh := shape{Text: "s", Hash: h, Digits: d, C: m&1 != 0, Q: m&2 != 0, P: m&4 != 0, S: m&8 != 0, T: m&16 != 0, QF: qf, PH: ph, TS: ts}
 							// an otherwise admissible input for this shape
 							lens := [5]int{8, 16, 20, 5, 8}
@@ -342,7 +345,7 @@ func c14(r *ev.Run) {
 	sh.Text, sh.Digits = "s", 6
 	r.Sample(map[string]any{"case": c14Case{sh, [5]int{8, 129, 20, 5, 8}, "input.Validate", 0}, "want_admitted": false})
 	r.Sample(map[string]any{"case": c14Case{shape{Text: "s", Hash: 0, Digits: 3, Q: true, QF: 1}, [5]int{8, 16, 20, 5, 8}, "suite.Validate", 0}, "want_admitted": false})
-	r.Set("alphabet", map[string]any{"suite clause": "32 subsets x challenge format 0..6 x password hash 0..3 x digits -1..12 and wraps (260, 262, 266, 518, 65542, 2^32+6, -250 ...) x hash 0..4 x time step {-1,0,1,60} through SuiteConfig.Validate, NewSuite, GenerateOCRA, ValidateOCRA", "input clause": fmt.Sprintf("per usable (subset, format, password hash) shape: every length -1(nil),0..140 of each field alone; every pair of fields x every pair of lengths over %d lengths; boundary set through GenerateOCRA/ValidateOCRA; unselected fields nil/0/1/8/200", len(pairLens))})
+	r.Set("alphabet", map[string]any{"suite clause": "32 subsets x challenge format 0..6 x password hash 0..3 x digits -1..12 and wraps (260, 262, 266, 518, 65542, 2^32+6, -250 ...) x hash 0..4 x time step {-1,0,1,60} and extremes (2^32, 9223372036, 9223372037, 2^40, 2^63-1 and negatives) through SuiteConfig.Validate, NewSuite, GenerateOCRA, ValidateOCRA", "input clause": fmt.Sprintf("per usable (subset, format, password hash) shape: every length -1(nil),0..140 of each field alone; every pair of fields x every pair of lengths over %d lengths; boundary set through GenerateOCRA/ValidateOCRA; unselected fields nil/0/1/8/200", len(pairLens))})
 	r.Rule("every configuration / length combination of the grid through the real admission paths vs an admission predicate written from the property text; distinct = distinct usable suite shapes + field shapes")
 	r.Assume("undefined enum values of challenge format / password hash are outside the property")
 }
